@@ -18,6 +18,11 @@ import sys
 import time
 
 ROOT = os.path.dirname(os.path.dirname(os.path.abspath(__file__)))
+# Sensitivity experiments only (never set by a registered command): VERIF_REPO points the build and the workers at a
+# scratch copy of the repository, VERIF_OUT sends evidence, new replay files, logs and scratch files elsewhere, so that
+# several modified copies can be examined at once without touching /repo or /verif's committed outputs.
+OUT = os.environ.get("VERIF_OUT") or ROOT
+ALT_REPO = os.environ.get("VERIF_REPO") if os.environ.get("VERIF_REPO") not in (None, "", "/repo") else None
 PY = os.environ.get("VERIF_PYTHON", "/venv/bin/python")
 WHEELS = "/opt/veriftools/wheels"
 
@@ -43,7 +48,7 @@ def worker_env():
     env = dict(os.environ)
     env["BIOSCRAPE_VERIF"] = "1"
     env["PYTHONHASHSEED"] = "0"
-    env["PYTHONPATH"] = ROOT + (":" + env["PYTHONPATH"] if env.get("PYTHONPATH") else "")
+    env["PYTHONPATH"] = ROOT + (":" + ALT_REPO if ALT_REPO else "") + (":" + env["PYTHONPATH"] if env.get("PYTHONPATH") else "")
     env["OMP_NUM_THREADS"] = "1"
     env["OPENBLAS_NUM_THREADS"] = "1"
     env["MKL_NUM_THREADS"] = "1"
@@ -171,14 +176,14 @@ def load_case_file(path):
 
 
 def write_violation(prop, seed, v):
-    d = os.path.join(ROOT, "replays", prop)
+    d = os.path.join(OUT, "replays", prop)
     os.makedirs(d, exist_ok=True)
     h = hashlib.sha1(v["signature"].encode()).hexdigest()[:10]
     path = os.path.join(d, f"viol_{h}_seed{seed}.json")
     with open(path, "w") as f:
         json.dump({"property": prop, "signature": v["signature"], "sub_oracle": v.get("sub"), "seed": seed,
                    "case": v["case"], "detail": v.get("detail")}, f, indent=1, sort_keys=True)
-    return os.path.relpath(path, ROOT)
+    return os.path.relpath(path, ROOT) if OUT == ROOT else path
 
 
 def validate_evidence(ev):
@@ -214,8 +219,8 @@ def main(argv=None):
     seed = int(os.environ.get("VERIF_SEED", "1") or "1")
     t0 = time.time()
     os.chdir(ROOT)
-    workdir = os.path.join(ROOT, ".work", f"{prop}_{os.getpid()}")
-    logdir = os.path.join(ROOT, "evidence", "logs")
+    workdir = os.path.join(OUT, ".work", f"{prop}_{os.getpid()}")
+    logdir = os.path.join(OUT, "evidence", "logs")
     os.makedirs(workdir, exist_ok=True)
     os.makedirs(logdir, exist_ok=True)
     try:
@@ -293,6 +298,8 @@ def _main(prop, args, seed, t0, workdir, logdir):
             for s in sigs:
                 if s != e["signature"] and s not in [x.get("signature") for x in load_known(prop) if x.get("status") == "known"]:
                     violations.append((s, e["replay"]))
+        elif os.environ.get("VERIF_NO_REGRESS") == "1":
+            continue      # sensitivity experiments: does the generated search alone find a re-introduced defect?
         else:  # fixed: an ordinary regression case, suppresses nothing
             regress_n += 1
             for s in sigs:
@@ -300,6 +307,8 @@ def _main(prop, args, seed, t0, workdir, logdir):
     reg_files = sorted(glob.glob(os.path.join(ROOT, "replays", prop, "regress_*.json")))
     listed = {os.path.join(ROOT, e["replay"]) for e in load_known(prop)}
     reg_files = [p for p in reg_files if p not in listed]
+    if os.environ.get("VERIF_NO_REGRESS") == "1":
+        reg_files = []
     if reg_files:
         cases = [load_case_file(p)["case"] for p in reg_files]
         outs = replay_cases(prop, cases, tier, seed, workdir, logdir, tag="regress")
@@ -381,8 +390,8 @@ def _main(prop, args, seed, t0, workdir, logdir):
     except Exception as e:
         if not uniq:
             raise HarnessFailure(f"evidence does not validate: {e}")
-    os.makedirs(os.path.join(ROOT, "evidence"), exist_ok=True)
-    with open(os.path.join(ROOT, "evidence", f"{prop}.json"), "w") as f:
+    os.makedirs(os.path.join(OUT, "evidence"), exist_ok=True)
+    with open(os.path.join(OUT, "evidence", f"{prop}.json"), "w") as f:
         json.dump(ev, f, indent=1, sort_keys=True)
     log(f"[{prop}] tier={tier} seed={seed} evaluations={evaluations} distinct_nontrivial={distinct} "
         f"excluded={sum(excluded.values())} violations={len(uniq)} wall={wall}s")
